@@ -28,7 +28,7 @@ fn describe(c: &Cfg) -> String {
 fn draw(rng: &mut Rng) -> Cfg {
     let shape = rng.below(4);
     let mut c = Cfg {
-        mode: *rng.pick(&[UNIFORM, IDENTITY, CONSTANT, SAMEBIN, MIXED, SPLITTING]),
+        mode: *rng.pick(&ALL_MODES),
         cap: *rng.pick(&[0usize, 1, 2, 16, 64]),
         nkeys: *rng.pick(&[4u64, 8, 16, 32]),
         prefill: 0,
